@@ -137,6 +137,10 @@ class Rotate(Domain):
             rotation_matrix, shifted_points.unsqueeze(-1)
         )
         shifted_points = rotated_points.squeeze(-1) + translate_values
+        # parameters may also be handed in as additional columns of the points
+        extra_vars = [v for v in points.space if v not in self.space]
+        if len(extra_vars) > 0:
+            params = points[:, extra_vars].join(params)
         return self.domain._contains(Points(shifted_points, self.space), params)
 
     def sample_random_uniform(
